@@ -154,6 +154,7 @@ def check(rep: Report, ctx: Ctx) -> None:
     r123(rep, ctx)
     r125(rep, ctx, sql)
     r127(rep, ctx, sql)
+    r129(rep, ctx)
 
 
 def r128(rep: Report, ctx: Ctx) -> bool:
@@ -714,3 +715,15 @@ def r127(rep: Report, ctx: Ctx, sql) -> None:
         o.rule = "R12.7"
         rep.obligations.append(o)
     rep.funcs_seen |= sub.funcs_seen
+
+
+def r129(rep: Report, ctx: Ctx) -> None:
+    """(shared with C10 R10.7 / C11 R11.9)  The trace's name is taken from
+    its root row, found by ``parent_event_id IS NULL``: a root span whose
+    empty parent id is stored as '' is a root for nobody, its trace keeps the
+    per-span names and is streamed in pieces under several workflow names
+    (seed C12-y)."""
+    rep.rule("R12.9", "every site agrees on which spans are roots (None, "
+             "empty and real parent ids; = C10 R10.7 / C11 R11.9)", 3)
+    from .c10 import root_classification
+    root_classification(rep, ctx, "R12.9")
